@@ -1,5 +1,7 @@
 import EdpVerif.Impl.Decode
 import EdpVerif.Impl.TableTie
+import EdpVerif.Lemmas.DecTotal
+import EdpVerif.Lemmas.DistHeader
 /-
 C02 — decoding untrusted bytes always returns: no panic, abort, overflow or blow-up.
 The model makes every Rust panic site an explicit outcome (`DErr.panic`), so "never panics" is a theorem and not a
@@ -92,5 +94,95 @@ theorem C02_no_panic_after_inflate (x : Ext) (cfg : DecCfg) (fuel depth : Nat) (
                 · omega
                 · simp
               · simp
+
+/-- what is assumed of zlib: it reports no more input consumed than it was given (`total_in` of flate2) -/
+def InflateSane (x : Ext) : Prop := ∀ z out n, x.inflate z = some (out, n) → n ≤ z.length
+
+/-- **No input reaches a panic site of the term decoder**: every byte string, every nesting depth, every atom cache,
+either decoder configuration (owned / zero-copy), every fuel — the outcome is a term or an error -/
+theorem C02_total (x : Ext) (cfg : DecCfg) (hx : InflateSane x) (fuel depth : Nat) (bs : Bytes) :
+    dec x cfg fuel depth bs ≠ .error .panic :=
+  (dec_no_panic x cfg hx fuel).1 depth bs
+
+/-- the entry points `decode` and `decode_borrowed` -/
+theorem C02_total_decode (x : Ext) (cfg : DecCfg) (hx : InflateSane x) (bs : Bytes) :
+    decodeWith x cfg bs ≠ .error .panic := by
+  unfold decodeWith
+  cases bs with
+  | nil => simp
+  | cons v r =>
+    simp only
+    split
+    · simp
+    · split
+      · rename_i e h; intro hp; simp only [Except.error.injEq] at hp; subst hp
+        exact C02_total x cfg hx _ _ _ h
+      · simp
+      · simp
+
+/-- the hypothesis is satisfiable: an inflater that refuses everything, and any one that consumes a prefix -/
+example : InflateSane Ext.none := by intro z out n h; simp [Ext.none] at h
+example : InflateSane { inflate := fun z => some (z.take 1, z.length), parseFloat := fun _ => none } := by
+  intro z out n h; simp at h; omega
+
+/-- the entry point `decode_with_atom_cache` (distribution header, then one or two terms), whatever the cache holds -/
+theorem C02_total_with_atom_cache (x : Ext) (hx : InflateSane x) (c : DistHeader.Cache) (bs : Bytes) :
+    (DistHeader.decodeWithAtomCache x c bs).2 ≠ .error .panic := by
+  unfold DistHeader.decodeWithAtomCache
+  cases bs with
+  | nil => simp
+  | cons v r =>
+    simp only
+    split
+    · simp
+    · cases r with
+      | nil => simp
+      | cons tag r1 =>
+        simp only
+        by_cases ht : (tag == 68) = true
+        · simp only [ht, ↓reduceIte]
+          cases hp : DistHeader.parseHeader c r1 with
+          | mk c1 res =>
+            cases res with
+            | error e =>
+              simp only
+              have := DistHeader.parseHeader_np c r1
+              rw [hp] at this
+              simpa using this
+            | ok body =>
+              simp only
+              split
+              · rename_i e h; intro hq; simp only [Except.error.injEq] at hq; subst hq
+                exact C02_total x _ hx _ _ _ h
+              · split
+                · simp
+                · split
+                  · rename_i e h; intro hq; simp only [Except.error.injEq] at hq; subst hq
+                    exact C02_total x _ hx _ _ _ h
+                  · simp
+                  · simp
+        · simp only [ht, Bool.false_eq_true, ↓reduceIte]
+          split
+          · rename_i e h; intro hq; simp only [Except.error.injEq] at hq; subst hq
+            exact C02_total x _ hx _ _ _ h
+          · split
+            · simp
+            · split
+              · rename_i e h; intro hq; simp only [Except.error.injEq] at hq; subst hq
+                exact C02_total x _ hx _ _ _ h
+              · simp
+              · simp
+
+/-- a connection's whole history of header-mode messages: no message, well-formed or not, panics the receiver -/
+theorem C02_total_sequence (x : Ext) (hx : InflateSane x) (c : DistHeader.Cache) (msgs : List Bytes) :
+    ∀ r ∈ DistHeader.decodeSeq x c msgs, r ≠ .error .panic := by
+  induction msgs generalizing c with
+  | nil => simp [DistHeader.decodeSeq]
+  | cons m ms ih =>
+    intro r hr
+    simp only [DistHeader.decodeSeq, List.mem_cons] at hr
+    rcases hr with rfl | hr
+    · exact C02_total_with_atom_cache x hx c m
+    · exact ih _ r hr
 
 end Edp.Props.C02
